@@ -8,16 +8,21 @@ import "time"
 // Bound: the catch-up loop runs lastUID-timestamp+1 times; gaps above `gap` are outside the bound.
 func VerifC04Generator() {
 	gap := vsymParam("gap")
-	epoch := time.Unix(1675209600, 0) // 2023-02-01T00:00:00Z (DefaultEpochUIDValidityGenerator)
-	g := NewEpochUIDValidityGenerator(epoch)
+	// the generator's epoch lies `secs` seconds before now: the elapsed time Generate computes is an arbitrary value
+	// (also beyond the 32-bit range), whatever the real clock says - so that a counterexample replays natively
+	t0 := time.Now()
+	secs := vsymInt64("secs")
+	vsymAssume(secs >= 0)
+	vsymAssume(secs <= 1<<33)
+	g := NewEpochUIDValidityGenerator(time.Unix(t0.Unix()-secs, 0))
 	last := vsymUint32("lastUID")
 	g.lastUID = last
-	// the clock: an arbitrary instant at or after the epoch
-	t0 := time.Now()
-	secs := uint64(t0.Sub(epoch).Seconds())
-	// the next clock reading (inside Generate) is >= t0; it may be far beyond the 32-bit range
-	vsymAssume(int64(last)-int64(secs) <= int64(gap))
+	if gap >= 0 {
+		vsymAssume(int64(last)-secs <= int64(gap))
+	} // gap < 0: any distance between state and clock; the catch-up loop is cut at the unwinding limit (declared)
 	uid, err := g.Generate()
+	// the call itself takes at most two seconds of clock time (stated assumption; keeps the replay faithful)
+	vsymAssume(time.Now().Unix()-t0.Unix() <= 2)
 	if err != nil {
 		vsymCover("generator-error")
 		vsymAssert(g.lastUID == last, "a failed Generate leaves the generator state unchanged")
